@@ -1,6 +1,8 @@
 """Table rules (T): every cell of the ISO tables the repository keeps as code,
 materialised by folding the lookup functions over their whole finite domain
 and compared with the independently derived reference."""
+import re
+
 from . import fold, peval, reference as ref
 from .fold import mk_int as fold_mk_int
 from .fold import TOP, mk_enum, mk_int, mk_bool, to_py
@@ -51,6 +53,59 @@ def anchor_fn(ctx, rid, f, path, inputs=None, output=None, private=False):
         return None
     ctx.anchor_missing(rid, path)
     return None
+
+
+def division_routine(ctx, rid, f, quiet=False):
+    """the block division: `polynomials::division(&[u8], &[u8]) -> [u8; N]`, or - when that private routine has been renamed or given
+    an out-parameter - the one crate function called by polynomials::structure that takes two byte slices and yields / fills a byte
+    array.  -> (function, "ret" | "out", N) or None (an abstention: the routine is an internal helper, not an anchor)"""
+    fn = f.fn("polynomials::division")
+    if fn is not None:
+        m = re.match(r"^\[u8; (\d+)\]$", fn.raw.get("output") or "")
+        if m and (fn.raw.get("inputs") or []) == ["&[u8]", "&[u8]"]:
+            ctx.analysed(fn)
+            return fn, "ret", int(m.group(1))
+    st = f.fn("polynomials::structure")
+    cands = []
+    if st is not None:
+        for c in st.calls():
+            g = f.fn(c.name) if c.name else None
+            if g is None:
+                continue
+            ins = g.raw.get("inputs") or []
+            if ins[:2] != ["&[u8]", "&[u8]"]:
+                continue
+            m = re.match(r"^\[u8; (\d+)\]$", g.raw.get("output") or "")
+            if m and len(ins) == 2:
+                cands.append((g, "ret", int(m.group(1))))
+            elif len(ins) == 3:
+                m3 = re.match(r"^&mut \[u8; (\d+)\]$", ins[2])
+                if m3 and (g.raw.get("output") or "()") == "()":
+                    cands.append((g, "out", int(m3.group(1))))
+    uniq = {c[0].path: c for c in cands}
+    if len(uniq) == 1:
+        c = list(uniq.values())[0]
+        ctx.analysed(c[0])
+        if not quiet:
+            ctx.notes.append("%s: the block division is %s (%s)" % (rid, c[0].path, "returns the buffer" if c[1] == "ret" else "fills an out-parameter"))
+        return c
+    if not quiet:
+        ctx.abstain(rid, "the block division routine (polynomials::division, or the function structure() calls with two byte slices) is "
+                         "not found: an internal helper renamed or inlined")
+    return None
+
+
+def call_division(pe, div, block, gen):
+    """evaluate the division routine on (block, generator) -> Result whose .value is the buffer"""
+    fn, form, n = div
+    if form == "ret":
+        return pe.call(fn.path, [block, gen])
+    from .fold import mk_int as _mk
+    buf = ("array", tuple(_mk("u8", 0xA5) for _ in range(n)))  # stale content: the routine must not rely on a zeroed buffer
+    r = pe.call(fn.path, [block, gen, ("cell", 0)], cells=[buf])
+    if r.kind == "ret":
+        r.value = r.cells[0] if r.cells else TOP
+    return r
 
 
 def args_for(fn, by_type):
@@ -552,9 +607,10 @@ def c06_t4(ctx, f):
 def c07_t1(ctx, f):
     rid = "C07.T1"
     ctx.rule(rid, "GF(256)/0x11D exp and log tables (510 reachable cells)")
-    fn = anchor_fn(ctx, rid, f, "polynomials::division")
-    if not fn:
+    dv = division_routine(ctx, rid, f)
+    if not dv:
         return
+    fn = dv[0]
     # every u8 table constant read in `division`; its role (exponent -> value, value -> exponent) is told by its content:
     # a table that agrees with one of the two GF(256)/0x11D tables on at least 7 entries in 8 is that table, and every
     # reachable entry must then be right; a table that resembles neither is not a field table (not this rule's business)
@@ -608,11 +664,12 @@ def c07_t1(ctx, f):
 def c07_r1(ctx, f, layouts=None, degrees=None):
     rid = "C07.R1"
     ctx.rule(rid, "division buffer obligations: block + generator fit; zero coefficients skipped")
-    fn = anchor_fn(ctx, rid, f, "polynomials::division")
-    if not fn:
+    dv = division_routine(ctx, rid, f)
+    if not dv:
         return
+    fn = dv[0]
     import re
-    m = re.match(r"\[u8; (\d+)\]$", fn.raw["output"])
+    m = re.match(r"\[u8; (\d+)\]$", fn.raw["output"] if dv[1] == "ret" else fn.raw["inputs"][2][5:])
     if not m:
         ctx.abstain(rid, "division no longer returns a fixed array", where_fn(fn))
         return
